@@ -22,9 +22,8 @@ def classify_crash(cr):
             where = tag
             break
     what = 'crash'
-    m = re.search(r'AddressSanitizer: ([\w-]+)', err)
-    if m:
-        what = m.group(1).replace('-', '_')
+    if 'AddressSanitizer' in err:
+        what = 'memory_error'            # heap-buffer-overflow / use-after-free / SEGV: one defect shows up under several ASan names
     elif 'Assertion' in err:
         what = 'assertion'
     elif 'runtime error' in err:
@@ -36,11 +35,32 @@ SPEC = {
     'id': 'C03',
     'lean_modules': ['AITB.Props.C03'],
     'theorems': [
+        # algebra of the belief-MDP operator on unnormalised beliefs
+        'AITB.POMDP.mass_bstep', 'AITB.POMDP.dotS_backupVec', 'AITB.POMDP.Hop_mono', 'AITB.POMDP.iterH_mono',
+        # lower side: point backups, blind strategies
+        'AITB.POMDP.pointBackup_le_qval', 'AITB.POMDP.pointBackup_sound', 'AITB.POMDP.pointBackup_skip_sound_partial',
+        'AITB.POMDP.blindStep_eq_backup', 'AITB.POMDP.blindStep_sound', 'AITB.POMDP.blindIter_sound',
+        'AITB.POMDP.const_le_iterH', 'AITB.POMDP.iterH_superSol',
+        # upper side: sublinearity, interpolation, FIB, QMDP, promising backup
+        'AITB.POMDP.Sublin_Hop', 'AITB.POMDP.Sublin_iterH', 'AITB.POMDP.sublin_combo', 'AITB.POMDP.sublin_le_corners',
+        'AITB.POMDP.interp_sound', 'AITB.POMDP.Hop_le_basicVal', 'AITB.POMDP.fib_ge_v', 'AITB.POMDP.fibStepW_sound', 'AITB.POMDP.fibStep_sound',
+        'AITB.POMDP.qmdp_ge_fib_step', 'AITB.POMDP.qmdp_ge_fib', 'AITB.POMDP.promisingVal_ge_qval', 'AITB.POMDP.promisingBackup_upper',
+        # the two reference families and the modelled loops against them
+        'AITB.POMDP.tolLoop_inv', 'AITB.POMDP.upperRef_superSol', 'AITB.POMDP.upperRef_antitone', 'AITB.POMDP.const_le_upperRef',
+        'AITB.POMDP.finite_horizon_le_upperRef', 'AITB.POMDP.blind_fast_start_safe', 'AITB.POMDP.blind_fast_lower', 'AITB.POMDP.blind_plain_lower',
+        'AITB.POMDP.lowerRef_subSol', 'AITB.POMDP.lowerRef_sublin', 'AITB.POMDP.lowerRef_monotone', 'AITB.POMDP.lowerRef_le_const',
+        'AITB.POMDP.fib_start_safe', 'AITB.POMDP.fib_upper',
+        # anytime solvers: event system, invariant, every prefix
+        'AITB.POMDP.isInterp_ge', 'AITB.POMDP.Sound_step', 'AITB.POMDP.anytime_sound', 'AITB.POMDP.initial_sound',
+        # bestConservativeAction as found / repaired, with the machine-checked witness
+        'AITB.POMDP.conservativeAlpha_sound', 'AITB.POMDP.conservativeAlpha_sound_partial', 'AITB.POMDP.conservative_skip_witness_values',
+        'AITB.POMDP.mW_valid', 'AITB.POMDP.mW_ref_superSol', 'AITB.POMDP.ΓW_sound', 'AITB.POMDP.conservative_skip_counterexample',
     ],
+    'gen_obligations': ['AITB.POMDP.src_blind_start_is_min', 'AITB.POMDP.src_fib_start_is_max', 'AITB.POMDP.src_fib_inner_is_max'],
     'harness': 'harness/c03.cpp',
     'level': 'proof',
     'timeout': {'quick': 900, 'thorough': 3000},
-    'case_timeout': 90,
+    'case_timeout': 150,
     'classify_crash': classify_crash,
     'rule': 'one case = one (POMDP, solver) pair; 10 fixed POMDPs (Tiger, 1-state clamp witnesses, corner/face initial beliefs, all-negative rewards) then '
             '40 (quick) / 600 (thorough) seeded dyadic POMDPs S<=4(5) A<=3 O<=3, discounts 1/2..15/16 (and 0.9/0.95/0.3), initial belief corner/face/interior; '
